@@ -277,11 +277,12 @@ UNIT = Unit(
            ],
            ensures=[
                ("frame-lines", "final(self).lines@ == old(self).lines@ && final(self).move_cursor == old(self).move_cursor"),
-               ("C18-error-keeps-count", "res.is_err() ==> *final(bar_count) == *old(bar_count)"),
+               ("C18-error-keeps-count", "res.is_err() ==> *final(bar_count) == *old(bar_count)", ["C18"]),
                ("geometry", "final(term)@.same_geom(old(term)@) && final(term)@.wf()"),
                ("one-flush", "res.is_ok() ==> final(term)@.flushed == old(term)@.flushed + 1"),
                ("C03-rows-above-untouched",
-                "res.is_ok() && !cr_hazard(*old(self), old(term)@, old(bar_count).0 as int) ==> forall|p: int| p < frame_start(old(term)@, old(bar_count).0 as int) ==> (#[trigger] (final(term)@.cells)(p)) == (old(term)@.cells)(p)"),
+                "res.is_ok() && !cr_hazard(*old(self), old(term)@, old(bar_count).0 as int) ==> forall|p: int| p < frame_start(old(term)@, old(bar_count).0 as int) ==> (#[trigger] (final(term)@.cells)(p)) == (old(term)@.cells)(p)",
+                ["C01", "C03", "C19"]),
                ("C01-content",
                 "res.is_ok() && old(self).alignment is Top && layout_pre(*old(self), old(term)@, old(bar_count).0 as int) && !first_line_hazard(*old(self), old(term)@, old(bar_count).0 as int) ==> "
                 "forall|p: int| p >= frame_start(old(term)@, old(bar_count).0 as int) ==> cell_ok(#[trigger] (final(term)@.cells)(p), old(self).lines@, old(term)@.w, "
@@ -296,6 +297,16 @@ UNIT = Unit(
                ("C19-rows-accounted",
                 "res.is_ok() && old(self).alignment is Top ==> final(bar_count).0 as nat == rh(old(self).lines@, old(term)@.w, stop(old(self).lines@, old(term)@.w, old(term)@.h, 0))"),
                ("C19-never-taller-than-terminal", "res.is_ok() && old(self).alignment is Top ==> final(bar_count).0 as nat <= old(term)@.h"),
+           ],
+           findings=[
+               ("C03-frame-in-cursor-moving-mode",
+                "res.is_ok() ==> forall|p: int| p < frame_start(old(term)@, old(bar_count).0 as int) ==> (#[trigger] (final(term)@.cells)(p)) == (old(term)@.cells)(p)",
+                ["C03"], "in cursor-moving mode with no rows painted before, the carriage return lands on the line above the region"),
+               ("C01-first-line-advance",
+                "res.is_ok() && old(self).alignment is Top && layout_pre(*old(self), old(term)@, old(bar_count).0 as int) ==> "
+                "forall|p: int| p >= frame_start(old(term)@, old(bar_count).0 as int) ==> cell_ok(#[trigger] (final(term)@.cells)(p), old(self).lines@, old(term)@.w, "
+                "frame_start(old(term)@, old(bar_count).0 as int), stop(old(self).lines@, old(term)@.w, old(term)@.h, 0), p)",
+                ["C01", "C03"], "a zero-width first line painted from the pending-wrap column does not advance a row"),
            ],
            proofs=[
                (r"term\.clear_line\(\)\?;", "after", """                proof {
@@ -509,3 +520,13 @@ UNIT = Unit(
            }),
     ],
 )
+
+# property tags per clause (a failed clause raises the alarm of the properties it serves)
+_TAGS = {"C01-content": ["C01", "C19"], "C01-cursor-rest": ["C01"], "C01-cleared-frame-leaves-nothing": ["C01", "C19"],
+         "C19-rows-accounted": ["C19", "C01", "C03"], "C19-never-taller-than-terminal": ["C19"],
+         "one-flush": ["C01", "C04"], "frame-lines": ["C01", "C03", "C18", "C19"], "geometry": ["C01", "C03", "C18", "C19"]}
+for _it in UNIT.items:
+    if getattr(_it, "name", "") == "draw_to_term":
+        for _c in _it.ensures:
+            if _c.props is None and _c.label in _TAGS:
+                _c.props = _TAGS[_c.label]
